@@ -22,9 +22,11 @@ UNIT = Agg("tuple", None, None, [])
 
 def inline(k):
     """callee keys a rule using the store should let the interpreter inline: the Entry combinators, and the State sugar
-    that is more than a renamed accessor (best_individual / best_objective_value, decided by C01.R6)"""
+    that is more than a renamed accessor (best_individual / best_objective_value, decided by C01.R6), and the (derived)
+    Deref / DerefMut of the crate's state newtypes - the cells hold the newtype, the code works on what it wraps"""
     return k.startswith(ENT + "Entry::") or k.startswith("<" + ENT + "Entry") or k.startswith("mahf::state::State::best_") \
-        or k.startswith("<mahf::state::common::BestIndividual")
+        or k.startswith("<mahf::state::common::BestIndividual") \
+        or (k.startswith("<mahf::") and not k.startswith("<mahf::state::State") and (k.endswith(" as core::ops::deref::Deref>::deref") or k.endswith(" as core::ops::deref::DerefMut>::deref_mut")))
 
 
 def shaped(F, ty, tag, heap=None):
@@ -56,7 +58,7 @@ def shaped(F, ty, tag, heap=None):
 
 
 class Store:
-    def __init__(self, F, levels=2, base=30000, auto=None, outward=1, level_of=None):
+    def __init__(self, F, levels=2, base=30000, auto=None, outward=1, level_of=None, newtypes=()):
         """auto(ty) -> {level: initial value} for a type met during evaluation that has no declared cell (None: such
         types are left to the other oracles)"""
         self.F = F
@@ -68,6 +70,7 @@ class Store:
         self.heap = {}       # heap vectors of shaped initial values
         self.outward = outward      # +1: enclosing scopes have GREATER level numbers (0 = innermost); -1: smaller (0 = root)
         self.level_of = level_of    # how a receiver value maps to its scope level (default: `reg:<n>` symbols, else 0)
+        self.newtypes = set(newtypes)   # type names (e.g. a type parameter `T`) to be treated as newtypes whose Deref target is field 0
         self.touched = []    # types in order of first access
         self._auto_types = set()
 
@@ -185,6 +188,8 @@ class Store:
 
     def _single_payload(self, ty):
         """value accessors reach the Deref target of T: for the crate's newtype states that is field 0"""
+        if ty in self.newtypes:
+            return True
         try:
             adt = self.F.adt(ty.split("<")[0])
             flds = [fd for fd in adt["variants"][0]["fields"] if not (fd.get("ty") or "").startswith("core::marker::PhantomData")]
